@@ -744,7 +744,9 @@ static void sweep_areas(void)
  * that end in a separator (the whole string then sits in the path header and the file-name header is empty or absent) */
 static void sweep_links(void)
 {
-	static const char *joined[] = { "mylink|some/dir/", "d/mylink|../", "l|/", "a/b/l|t", "l|a/b", "x|y/", "d/|t", "|t", "l|" };
+	static const char *joined[] = { "mylink|some/dir/", "d/mylink|../", "l|/", "a/b/l|t", "l|a/b", "x|y/", "d/|t", "|t", "l|",
+	                                /* targets that contain '|' themselves: the split is at the first one */
+	                                "lnk|a|b", "d/l|t|u", "l||t", "l|a/b|c", "l|t|" };
 	unsigned ji, level, os_i, form;
 	static const uint8_t oss[3] = { 'U', 'M', 'm' };
 	static const uint8_t perm[2] = { 0xFF, 0xA1 };
